@@ -100,6 +100,13 @@ static const size_t recvmaxes[3] = { 0, 64, 1u << 20 };
 #define MAGIC_CTL 0x43313163u  // "C11c"
 #define TAGLEN 12
 
+// 28 bits of a serial number in four bytes that all have the high bit clear
+static uint32_t
+enc7(uint32_t s)
+{
+	return (((s >> 21) & 0x7f) << 24) | (((s >> 14) & 0x7f) << 16) | (((s >> 7) & 0x7f) << 8) | (s & 0x7f);
+}
+
 static uint32_t
 be32(const uint8_t *p)
 {
@@ -402,7 +409,7 @@ oracle_rx(victim *v, nng_msg *m)
 	bool   hdr_mismatch = false;
 	size_t mm_hlen      = 0;
 	for (sess_exp *se = v->sessions; se; se = se->next) {
-		if (blen >= TAGLEN && be32(body) == MAGIC_DATA && be32(body + 4) != se->serial && (be32(body + 4) & 0x80808080u) == 0) {
+		if (blen >= TAGLEN && be32(body) == MAGIC_DATA && be32(body + 4) != enc7(se->serial)) {
 			continue; // tagged for another session
 		}
 		for (int i = se->cursor; i < se->nfr; i++) {
@@ -824,7 +831,8 @@ static bool zombie_seen[T_N];
 static void
 settle(victim *v, int ms)
 {
-	if ((zombie_seen[v->tran] || v->tran == T_UDP) && ms > 150) ms = 150;
+	if (zombie_seen[v->tran] && ms > 150) ms = 150;
+	if (v->tran == T_UDP && ms > 30) ms = 30;
 	uint64_t end = vf_now_ns() + (uint64_t) ms * 1000000ULL;
 	for (;;) {
 		pump(v);
@@ -1051,7 +1059,7 @@ render_payload(const victim *v, const fspec *f, uint32_t serial, int j, uint32_t
 		uint8_t  tag[TAGLEN];
 		uint8_t *tmp = malloc(f->blen);
 		put_be32(tag, MAGIC_DATA);
-		put_be32(tag + 4, serial & 0x7f7f7f7fu);
+		put_be32(tag + 4, enc7(serial));
 		tag[8]  = (uint8_t) ((j >> 8) & 0x7f);
 		tag[9]  = (uint8_t) (j & 0x7f);
 		tag[10] = (uint8_t) ((f->blen >> 8) & 0x7f);
